@@ -259,7 +259,7 @@ func (rs *bodyStream) skipRest() error {
 				return SkipTrailer(rs.reader)
 			}
 
-			err = rs.reader.Skip(chunkSize)
+			err = skipBytes(rs.reader, chunkSize)
 			if err != nil {
 				return err
 			}
@@ -299,32 +299,36 @@ func (rs *bodyStream) skipRest() error {
 	}
 
 	// must skip size
-	for {
-		skip := rs.reader.Len()
+	return skipBytes(rs.reader, needSkipLen)
+}
+
+// skipBytes discards the next n bytes of r, waiting for the ones that have not been
+// received yet.
+func skipBytes(r network.Reader, n int) error {
+	for n > 0 {
+		skip := r.Len()
 		if skip == 0 {
-			_, err := rs.reader.Peek(1)
+			_, err := r.Peek(1)
 			if err != nil {
 				return err
 			}
-			skip = rs.reader.Len()
+			skip = r.Len()
 		}
-		if skip > needSkipLen {
-			skip = needSkipLen
+		if skip > n {
+			skip = n
 		}
-		err := rs.reader.Skip(skip)
+		err := r.Skip(skip)
 		if err != nil {
 			return err
 		}
 		// After Skip, the buffer needs to be released to prevent OOM if there are too much data on conn.
-		err = rs.reader.Release()
+		err = r.Release()
 		if err != nil {
 			return err
 		}
-		needSkipLen -= skip
-		if needSkipLen == 0 {
-			return nil
-		}
+		n -= skip
 	}
+	return nil
 }
 
 // ReleaseBodyStream releases the body stream.
